@@ -57,6 +57,7 @@ var localKnownTags = map[string]bool{
 	"c09-bitcast-of-abstract-literal":                    true, // C09-12
 	"c09-validate-duplicate-binding-across-entry-points": true, // C09-13
 	"c09-abstract-splat-not-concretized":                 true, // C09-14
+	"c09-folded-abstract-vector-picks-first-vecn-type":   true, // C09-15
 }
 
 func excluded(tag string) bool {
@@ -375,6 +376,14 @@ func typeInArena(m *ir.Module, in ir.TypeInner) bool {
 // matchKnown returns the tag of the known finding whose shape the issue has ("" if none).
 func matchKnown(m *ir.Module, is irx.Issue) string {
 	kind := exprKind(is, is.Expr)
+	if is.Fn != nil && is.Expr >= 0 {
+		switch is.Rule {
+		case irx.RuleTypingError, irx.RuleTypingMismatch, irx.RuleAbstractLiteral:
+			if tag := cascadeShape(m, is); tag != "" {
+				return tag
+			}
+		}
+	}
 	switch is.Rule {
 	case irx.RuleTypingError:
 		// C09-14 (cascade): something computed from a Splat of an abstract literal.
@@ -383,6 +392,11 @@ func matchKnown(m *ir.Module, is irx.Issue) string {
 			return ok && isAbstractLiteral(is.Fn, int(sp.Value))
 		}) {
 			return "c09-abstract-splat-not-concretized"
+		}
+		// C09-15: `vec2(2) + 1` is folded into a Compose whose type is the first vecN in the
+		// arena (vec2<f32>) although its literal components are i32.
+		if is.Fn != nil && dependsOn(is.Fn, is.Expr, 0, func(h int) bool { return literalComposeOfOtherScalar(m, is.Fn, h) }) {
+			return "c09-folded-abstract-vector-picks-first-vecn-type"
 		}
 		// C09-7: (*p).xy on a pointer PARAMETER becomes Swizzle{Vector: FunctionArgument}
 		// with no Load; the swizzle and everything computed from it cannot be typed.
@@ -446,6 +460,23 @@ func matchKnown(m *ir.Module, is irx.Issue) string {
 			return "c09-atomicstore-value-emitted-after-store"
 		}
 	case irx.RuleStoreType, irx.RuleReturnType, irx.RuleCallArgType:
+		// C09-11: extractBits/insertBits of an abstract-int constant is typed u32, so a
+		// u32 value flows where the program (correctly) expects i32.
+		if is.Fn != nil && is.Value >= 0 {
+			want, wok := scalarOfShape(irx.InnerOf(m, is.Recorded))
+			got, gok := scalarOfShape(irx.InnerOf(m, is.Inferred))
+			if wok && gok && want.Kind == ir.ScalarSint && got.Kind == ir.ScalarUint &&
+				dependsOn(is.Fn, is.Value, 0, func(h int) bool { return bitsOfConstant(is.Fn, h) }) {
+				return "c09-extractbits-abstract-arg-typed-u32"
+			}
+			// C09-12 (cascade): the value is computed from a bitcast of an abstract literal.
+			if dependsOn(is.Fn, is.Value, 0, func(h int) bool {
+				as, ok := is.Fn.Expressions[h].Kind.(ir.ExprAs)
+				return ok && as.Convert == nil && isAbstractLiteral(is.Fn, int(as.Expr))
+			}) {
+				return "c09-bitcast-of-abstract-literal"
+			}
+		}
 		// C09-3: an access into a `const` composite with nested composites (array of
 		// vectors, matrix, struct) is folded as an index into the flattened scalar
 		// list: a scalar Literal flows where vecN of that scalar is expected.
@@ -546,6 +577,123 @@ func valueOfAtomicStore(m *ir.Module, f *ir.Function, b ir.Block, h int, depth i
 		}
 	}
 	return false
+}
+
+// literalComposeOfOtherScalar: a Compose of a vector type whose components are all
+// scalar literals, as many as the vector size, of ONE scalar type different from the vector's.
+func literalComposeOfOtherScalar(m *ir.Module, f *ir.Function, h int) bool {
+	c, ok := f.Expressions[h].Kind.(ir.ExprCompose)
+	if !ok || int(c.Type) >= len(m.Types) {
+		return false
+	}
+	vt, ok := m.Types[c.Type].Inner.(ir.VectorType)
+	if !ok || len(c.Components) != int(vt.Size) {
+		return false
+	}
+	ty := irx.NewTypifier(m, f)
+	for _, comp := range c.Components {
+		if int(comp) >= h {
+			return false
+		}
+		if _, isLit := f.Expressions[comp].Kind.(ir.Literal); !isLit {
+			return false
+		}
+		r, err := ty.Type(comp)
+		if err != nil {
+			return false
+		}
+		sc, isScalar := irx.InnerOf(m, r).(ir.ScalarType)
+		if !isScalar || sc == vt.Scalar {
+			return false
+		}
+	}
+	return true
+}
+
+func scalarOfShape(in ir.TypeInner) (ir.ScalarType, bool) {
+	switch x := in.(type) {
+	case ir.ScalarType:
+		return x, true
+	case ir.VectorType:
+		return x.Scalar, true
+	}
+	return ir.ScalarType{}, false
+}
+
+// bitsOfConstant: extractBits / insertBits whose first argument is a literal.
+func bitsOfConstant(f *ir.Function, h int) bool {
+	mt, ok := f.Expressions[h].Kind.(ir.ExprMath)
+	if !ok || (mt.Fun != ir.MathExtractBits && mt.Fun != ir.MathInsertBits) || int(mt.Arg) >= h {
+		return false
+	}
+	_, isLit := f.Expressions[mt.Arg].Kind.(ir.Literal)
+	return isLit
+}
+
+// cascadeShape recognises typing issues at, or computed from, the expression shapes of
+// C09-8, C09-9, C09-10, C09-11 and C09-12.
+func cascadeShape(m *ir.Module, is irx.Issue) string {
+	f := is.Fn
+	ptrArg := func(h ir.ExpressionHandle) bool {
+		if int(h) >= len(f.Expressions) {
+			return false
+		}
+		fa, ok := f.Expressions[h].Kind.(ir.ExprFunctionArgument)
+		if !ok || int(fa.Index) >= len(f.Arguments) || int(f.Arguments[fa.Index].Type) >= len(m.Types) {
+			return false
+		}
+		_, isPtr := m.Types[f.Arguments[fa.Index].Type].Inner.(ir.PointerType)
+		return isPtr
+	}
+	tag := ""
+	dependsOn(f, is.Expr, 0, func(h int) bool {
+		switch k := f.Expressions[h].Kind.(type) {
+		case ir.ExprMath:
+			// C09-8: transpose / determinant recorded with the argument's type
+			if k.Fun == ir.MathTranspose || k.Fun == ir.MathDeterminant {
+				tag = "c09-math-transpose-determinant-type"
+			}
+			if bitsOfConstant(f, h) {
+				tag = "c09-extractbits-abstract-arg-typed-u32"
+			}
+		case ir.ExprBinary:
+			// C09-9: `*p op= e` on a pointer parameter: Binary applied to the pointer itself
+			if ptrArg(k.Left) || ptrArg(k.Right) {
+				tag = "c09-compound-assign-through-pointer-param"
+			}
+		case ir.ExprCompose:
+			// C09-10: folded matrix arithmetic: a vector Compose with more literal scalars than its size
+			if int(k.Type) < len(m.Types) {
+				if vt, ok := m.Types[k.Type].Inner.(ir.VectorType); ok && len(k.Components) > int(vt.Size) && len(k.Components)%int(vt.Size) == 0 {
+					all := true
+					for _, c := range k.Components {
+						if _, isLit := f.Expressions[c].Kind.(ir.Literal); !isLit {
+							all = false
+						}
+					}
+					if all {
+						tag = "c09-const-matrix-arithmetic-folds-to-vector"
+					}
+				}
+			}
+		case ir.ExprAs:
+			// C09-12: bitcast of an abstract literal
+			if k.Convert == nil && isAbstractLiteral(f, int(k.Expr)) {
+				tag = "c09-bitcast-of-abstract-literal"
+			}
+		case ir.Literal:
+			// C09-12: the abstract literal itself, when a bitcast uses it
+			if h == is.Expr && isAbstractLiteral(f, h) {
+				for i := h + 1; i < len(f.Expressions); i++ {
+					if as, ok := f.Expressions[i].Kind.(ir.ExprAs); ok && as.Convert == nil && int(as.Expr) == h {
+						tag = "c09-bitcast-of-abstract-literal"
+					}
+				}
+			}
+		}
+		return tag != ""
+	})
+	return tag
 }
 
 // dependsOn: pred holds for h or for one of its transitive operands.
